@@ -613,7 +613,68 @@ func genFrag(rt *rapid.T, n int) s3x.Frag {
 	return f
 }
 
+// c01CopyFromUnreadable: an upload by copy is acknowledged only for a source that can be read. With
+// the source deleted in a versioned bucket (its newest entry is a delete marker), or deleted
+// outright, the copy is refused and what was acknowledged for the destination still comes back.
+func c01CopyFromUnreadable(k backends.Kind, versioned, viaAPI bool) (ds []disc) {
+	st := backends.Must(k, backends.Options{})
+	defer st.Close()
+	if err := ensureBucket(st, "bk0"); err != nil {
+		panic(err)
+	}
+	how := fmt.Sprintf("backend=%s versioned=%v api=%v: ", k, versioned, viaAPI)
+	if versioned {
+		if r := s3x.Do(st.Handler, &s3x.Req{Method: "PUT", Path: "/bk0", Query: s3x.Q("versioning", s3x.Bare), Body: []byte(`<VersioningConfiguration><Status>Enabled</Status></VersioningConfiguration>`)}); r.Status != 200 {
+			panic("harness: " + r.String())
+		}
+	}
+	kept := []byte("the acknowledged bytes of the destination")
+	for _, step := range [][2]string{{"src", "bytes of the source, deleted before the copy"}, {"dst", string(kept)}} {
+		if r := put(st, "bk0", step[0], []byte(step[1]), "X-Amz-Meta-Which", step[0]); r.Status != 200 {
+			panic("harness: " + r.String())
+		}
+	}
+	if r := del(st, "bk0", "src"); r.Status != 204 {
+		panic("harness: " + r.String())
+	}
+	if g := get(st, "bk0", "src"); g.Status != 404 {
+		return dsc("deleted-source-readable", how+"GET of the deleted source answered %s", g)
+	}
+	acked := false
+	if viaAPI {
+		func() {
+			defer func() {
+				if p := recover(); p != nil {
+					ds = append(ds, dsc("panic", how+"Backend.CopyObject: %v", p)...)
+				}
+			}()
+			_, err := st.Backend.CopyObject("bk0", "src", "bk0", "dst", nil)
+			acked = err == nil
+		}()
+	} else {
+		r := s3x.Do(st.Handler, &s3x.Req{Method: "PUT", Path: "/bk0/dst", Header: s3x.H("X-Amz-Copy-Source", "/bk0/src")})
+		if r.Panic != "" {
+			return dsc("panic", how+"copy: %s at %s", r.Panic, r.PanicSite)
+		}
+		acked = r.Status < 300
+	}
+	if acked {
+		ds = append(ds, dsc("copy-of-unreadable-source-acknowledged", how+"a copy was acknowledged whose source key answers 404 to a GET: there are no bytes it could have uploaded")...)
+	}
+	if g := get(st, "bk0", "dst"); g.Status != 200 || !bytes.Equal(g.Body, kept) || g.Header.Get("ETag") != etagOf(kept) || g.Header.Get("X-Amz-Meta-Which") != "dst" {
+		ds = append(ds, dsc("acknowledged-upload-lost", how+"after the copy from a deleted source (acknowledged=%v) the destination reads %d with %d bytes, ETag %s, X-Amz-Meta-Which %q; acknowledged were %d bytes, ETag %s", acked, g.Status, len(g.Body), g.Header.Get("ETag"), g.Header.Get("X-Amz-Meta-Which"), len(kept), etagOf(kept))...)
+	}
+	return ds
+}
+
 func c01Replay(check string, raw json.RawMessage) ([]disc, error) {
+	if check == "copy-from-unreadable" {
+		var cs c01Case
+		if err := json.Unmarshal(raw, &cs); err != nil {
+			return nil, err
+		}
+		return c01CopyFromUnreadable(cs.Backend, cs.Overwrite, cs.Path == "api"), nil
+	}
 	if check == "real-server" {
 		var cs c01Case
 		if err := json.Unmarshal(raw, &cs); err != nil {
@@ -718,6 +779,21 @@ func c01Run(t *testing.T, c *evid.Collector) {
 			cs := c01Case{Backend: k, Key: "(real net/http server)", Path: "real-server"}
 			c.Case(evid.FP("real-server", string(k)), true, func() interface{} { return cs }, "backend:"+string(k), "src:real-server", fmt.Sprintf("objects:%d", n))
 			report(c, "real-server", ds, cs)
+		}
+	}
+	if evid.Shard() == 0 {
+		for _, k := range kinds {
+			for _, versioned := range []bool{false, true} {
+				if versioned && k != backends.Mem {
+					continue
+				}
+				for _, api := range []bool{false, true} {
+					// (Overwrite doubles as "versioned" in the stored case)
+					cs := c01Case{Backend: k, Key: "(copy from a deleted source)", Path: map[bool]string{false: "copy", true: "api"}[api], Overwrite: versioned}
+					c.Case(evid.FP("copy-from-unreadable", string(k), fmt.Sprint(versioned, api)), true, func() interface{} { return cs }, "backend:"+string(k), "src:copy-from-unreadable")
+					report(c, "copy-from-unreadable", c01CopyFromUnreadable(k, versioned, api), cs)
+				}
+			}
 		}
 	}
 	one := func(cs c01Case, src string) bool {
